@@ -38,6 +38,7 @@ import (
 	"github.com/prometheus/alertmanager/marker"
 	"github.com/prometheus/alertmanager/notify"
 	"github.com/prometheus/alertmanager/pkg/labels"
+	"github.com/prometheus/alertmanager/pkg/verifhook"
 	"github.com/prometheus/alertmanager/provider"
 	"github.com/prometheus/alertmanager/store"
 	"github.com/prometheus/alertmanager/template"
@@ -239,6 +240,7 @@ func (d *Dispatcher) run(it provider.AlertIterator) {
 						continue
 					}
 
+					verifhook.Yield("dispatch.worker.recv", workerID, alert.Data)
 					ctx := d.ctx
 					if alert.Header != nil {
 						ctx = d.propagator.Extract(ctx, propagation.MapCarrier(alert.Header))
@@ -285,6 +287,7 @@ func (d *Dispatcher) doMaintenance() {
 			ag := el.(*aggrGroup)
 			if ag.destroyed() {
 				ag.stop()
+				verifhook.Yield("dispatch.maint.destroyed", ag.GroupKey())
 				deleted := d.routeGroupsSlice[i].groups.CompareAndDelete(ag.fingerprint(), ag)
 				if deleted {
 					// TODO(ultrotter, siavash):
@@ -456,6 +459,7 @@ func (d *Dispatcher) groupAlert(ctx context.Context, alert *alert.Alert, route *
 	fp := groupLabels.Fingerprint()
 
 	el, loaded := d.routeGroupsSlice[route.Idx].groups.Load(fp)
+	verifhook.Yield("dispatch.group.loaded", route.Idx, fp, alert)
 	if loaded {
 		ag := el.(*aggrGroup)
 		// Try to insert into the aggrgroup.
@@ -493,6 +497,7 @@ func (d *Dispatcher) groupAlert(ctx context.Context, alert *alert.Alert, route *
 	// alert is already there.
 	ag.insert(ctx, alert)
 
+	verifhook.Yield("dispatch.group.create", route.Idx, fp, alert)
 	retries := 0
 	for {
 		if loaded {
@@ -525,6 +530,7 @@ func (d *Dispatcher) groupAlert(ctx context.Context, alert *alert.Alert, route *
 			}
 		}
 
+		verifhook.Yield("dispatch.group.retry", route.Idx, fp, alert)
 		// If we failed to swap, it means another goroutine has created/modified the group
 		retries++
 		d.metrics.aggrGroupCreationRetries.Inc()
@@ -935,6 +941,7 @@ func (ag *aggrGroup) flush(notify func(...*alert.Alert) bool) {
 
 	if notify(alertsSlice...) {
 		ag.recordResolvedEvents(resolvedSlice)
+		verifhook.Yield("dispatch.flush.beforeDelete", ag.GroupKey())
 
 		// Delete all resolved alerts as we just sent a notification for them,
 		// and we don't want to send another one. However, we need to make sure
